@@ -63,6 +63,11 @@
 //! model keeps the list of moments at which a save must have reached the file; after `power` a
 //! retained variable must hold its pre-power value, after `reboot` the last flushed value (or,
 //! leniently, the current one). The engine never calls mark_retain_dirty() itself.
+//! Families store-reals / store-reals-every-cycle hold retained REAL / LREAL values that change only
+//! in the sign of zero (or are NaN) between two saves, by cycle-less writes of {+0.0, -0.0, NaN, 2.5}
+//! and by `x := -x;` in a cycle. Reals are compared by BITS everywhere (a retained -0.0 must come
+//! back as -0.0); which NaN arithmetic on a NaN yields is adopted. A stale load that differs from
+//! the expected value only in the sign of zero gets the feature `real:sign-of-zero`.
 //! Left out of the alphabet: `restart_with_retain(Cold)` / the resource loop's
 //! "restart then load_retain_store" (whether a cold start with a retain file present must ignore
 //! the file is not derivable from the statement); array/struct initialisers (not supported by
@@ -89,7 +94,7 @@ use trust_runtime::RestartMode;
 // model values (type tags deliberately dropped)
 // ------------------------------------------------------------------------------------------
 
-#[derive(Clone, Debug, PartialEq)]
+#[derive(Clone, Debug)]
 enum MVal {
     B(bool),
     I(i128),
@@ -100,6 +105,34 @@ enum MVal {
     St(Vec<(String, MVal)>),
     E(String),
     Other(String),
+}
+
+/// Equality of reals is equality of BITS: +0.0 and -0.0 are different values (1.0/x tells them
+/// apart), a NaN equals itself. f32 values are widened to f64 (exact, keeps the sign of zero).
+impl PartialEq for MVal {
+    fn eq(&self, o: &MVal) -> bool {
+        match (self, o) {
+            (MVal::B(a), MVal::B(b)) => a == b,
+            (MVal::I(a), MVal::I(b)) => a == b,
+            (MVal::R(a), MVal::R(b)) => a.to_bits() == b.to_bits(),
+            (MVal::T(a), MVal::T(b)) => a == b,
+            (MVal::S(a), MVal::S(b)) => a == b,
+            (MVal::A(d1, e1), MVal::A(d2, e2)) => d1 == d2 && e1 == e2,
+            (MVal::St(a), MVal::St(b)) => a == b,
+            (MVal::E(a), MVal::E(b)) => a == b,
+            (MVal::Other(a), MVal::Other(b)) => a == b,
+            _ => false,
+        }
+    }
+}
+
+fn is_nan(v: &MVal) -> bool {
+    matches!(v, MVal::R(r) if r.is_nan())
+}
+
+/// the two values are zeros (or equal numbers) that differ only in the sign bit of zero
+fn differs_by_sign_of_zero(a: &MVal, b: &MVal) -> bool {
+    matches!((a, b), (MVal::R(x), MVal::R(y)) if *x == 0.0 && *y == 0.0 && x.to_bits() != y.to_bits())
 }
 
 fn to_mval(v: &Value) -> MVal {
@@ -138,6 +171,7 @@ fn show(v: &MVal) -> String {
     match v {
         MVal::B(b) => format!("{b}"),
         MVal::I(i) => format!("{i}"),
+        MVal::R(r) if *r == 0.0 || r.is_nan() => format!("{r:?}/0x{:016x}", r.to_bits()),
         MVal::R(r) => format!("{r}"),
         MVal::T(t) => format!("T#{}ms", t / 1_000_000),
         MVal::S(s) => format!("'{s}'"),
@@ -199,6 +233,8 @@ enum Ty {
     Arr,
     Struct,
     Enum,
+    /// only used by the store-reals families (not part of the matrix)
+    LReal,
 }
 
 const ALL_TY: [Ty; 8] = [Ty::Bool, Ty::Int, Ty::Real, Ty::Time, Ty::Str, Ty::Arr, Ty::Struct, Ty::Enum];
@@ -215,6 +251,7 @@ impl Ty {
             Ty::Arr => "ARRAY",
             Ty::Struct => "STRUCT",
             Ty::Enum => "ENUM",
+            Ty::LReal => "LREAL",
         }
     }
     fn short(self) -> &'static str {
@@ -227,6 +264,7 @@ impl Ty {
             Ty::Arr => "arr",
             Ty::Struct => "pt",
             Ty::Enum => "col",
+            Ty::LReal => "lreal",
         }
     }
     fn decl(self) -> &'static str {
@@ -239,6 +277,7 @@ impl Ty {
             Ty::Arr => "ARRAY[0..1] OF INT",
             Ty::Struct => "Pt",
             Ty::Enum => "Color",
+            Ty::LReal => "LREAL",
         }
     }
     /// (initial value, initialiser text) — distinct per `idx` wherever the type allows, so that
@@ -253,7 +292,7 @@ impl Ty {
                 let n = 100 + 20 * idx as i128;
                 (MVal::I(n), format!(" := {n}"))
             }
-            Ty::Real => {
+            Ty::Real | Ty::LReal => {
                 let r = idx as f64 * 8.0 + 0.25;
                 (MVal::R(r), format!(" := {r:.2}"))
             }
@@ -281,7 +320,7 @@ impl Ty {
         match self {
             Ty::Bool => format!("{n} := NOT {n};"),
             Ty::Int => format!("{n} := {n} + 1;"),
-            Ty::Real => format!("{n} := {n} + 0.5;"),
+            Ty::Real | Ty::LReal => format!("{n} := {n} + 0.5;"),
             Ty::Time => format!("{n} := ADD_TIME({n}, T#1s);"),
             Ty::Str => format!("{n} := CONCAT({n}, 'x');"),
             Ty::Arr => format!("{n}[0] := {n}[0] + 1; {n}[1] := {n}[1] + 2;"),
@@ -343,6 +382,8 @@ enum Upd {
     CopyOf(String),
     NotOf(String),
     IncOf(String),
+    /// `x := -x;`
+    Neg,
 }
 
 #[derive(Clone, Debug)]
@@ -408,6 +449,10 @@ enum Ev {
     /// cycle, through one public path: 0 = VAR_ACCESS (`write_access`), 1 = storage API
     /// (`storage_mut().set_global/set_instance_var`), 2 = mesh update (`apply_mesh_updates`)
     WriteVia(u8),
+    /// store-reals families: write value k (0: +0.0, 1: -0.0, 2: NaN, 3: 2.5) into every retained
+    /// real without a scan cycle — the REAL global through its VAR_ACCESS path, the LREAL global as
+    /// a mesh update, the program-level REAL through the storage API
+    RealWrite(u8),
 }
 
 impl Ev {
@@ -426,6 +471,10 @@ impl Ev {
             Ev::WriteVia(0) => "access-path-write".into(),
             Ev::WriteVia(1) => "storage-write".into(),
             Ev::WriteVia(_) => "mesh-write".into(),
+            Ev::RealWrite(0) => "real-write:+0".into(),
+            Ev::RealWrite(1) => "real-write:-0".into(),
+            Ev::RealWrite(2) => "real-write:nan".into(),
+            Ev::RealWrite(_) => "real-write:2.5".into(),
         }
     }
     fn parse(s: &str) -> Option<Ev> {
@@ -444,6 +493,10 @@ impl Ev {
             "access-path-write" => Ev::WriteVia(0),
             "storage-write" => Ev::WriteVia(1),
             "mesh-write" => Ev::WriteVia(2),
+            "real-write:+0" => Ev::RealWrite(0),
+            "real-write:-0" => Ev::RealWrite(1),
+            "real-write:nan" => Ev::RealWrite(2),
+            "real-write:2.5" => Ev::RealWrite(3),
             _ => return None,
         })
     }
@@ -1163,6 +1216,65 @@ END_PROGRAM
     }
 }
 
+/// F "store-reals*": retained REAL / LREAL whose value changes only in the SIGN OF ZERO (or is a
+/// NaN) between two saves — by a cycle-less write and by a program statement (`x := -x;`, i.e. with
+/// a cycle and the dirty flag set). Nothing else in the snapshot changes, so a save that
+/// de-duplicates snapshots with a numeric comparison drops it.
+fn family_store_reals(every_cycle: bool) -> Family {
+    let src = r#"CONFIGURATION Conf
+VAR_GLOBAL RETAIN
+    g_f : REAL := 0.0;
+    g_lf : LREAL := 0.0;
+END_VAR
+PROGRAM P1 : Main;
+VAR_ACCESS
+    A_gf : g_f : REAL READ_WRITE;
+END_VAR
+END_CONFIGURATION
+
+PROGRAM Main
+VAR_EXTERNAL
+    g_f : REAL;
+    g_lf : LREAL;
+END_VAR
+VAR RETAIN
+    p_f : REAL := 0.0;
+END_VAR
+VAR
+    obs_main : INT;
+END_VAR
+g_f := -g_f;
+g_lf := -g_lf;
+p_f := -p_f;
+obs_main := obs_main + 1;
+END_PROGRAM
+"#;
+    let mut vars = vec![
+        plain("g_f".into(), Class::Keep, "global", "cfg", Qual::Retain, Ty::Real, MVal::R(0.0), 0),
+        plain("g_lf".into(), Class::Keep, "global", "cfg", Qual::Retain, Ty::LReal, MVal::R(0.0), 0),
+        plain("P1.p_f".into(), Class::Keep, "program", "prog", Qual::Retain, Ty::Real, MVal::R(0.0), 0),
+    ];
+    for v in vars.iter_mut() {
+        v.upd = Upd::Neg;
+    }
+    vars.push(special("P1.obs_main", "program", "prog", Ty::Int, MVal::I(0), Upd::Step, 0));
+    Family {
+        name: if every_cycle { "store-reals-every-cycle" } else { "store-reals" },
+        source: src.to_string(),
+        vars,
+        units: vec![Unit { name: "P1:Main".into(), observer: Some("P1.obs_main".into()), follows: None, always: true }],
+        in_bits: vec![],
+        in_words: vec![],
+        tasks: vec![],
+        access: vec![("A_gf".into(), "g_f".into(), "access:global-var".into())],
+        op_writes: vec![],
+        via_writes: vec![],
+        store_interval_ms: if every_cycle { 0 } else { 1000 },
+        depth: Some((4, 7)),
+        events: vec![Ev::Cycle, Ev::Warm, Ev::Cold, Ev::Save, Ev::Power, Ev::Reboot, Ev::RealWrite(0), Ev::RealWrite(1), Ev::RealWrite(2), Ev::RealWrite(3)],
+    }
+}
+
 fn family_by_name(name: &str, persistent: bool) -> Option<Family> {
     let quals: &[Qual] = if persistent { &QUALS_ALL } else { &QUALS_ALL[..3] };
     Some(match name {
@@ -1173,11 +1285,13 @@ fn family_by_name(name: &str, persistent: bool) -> Option<Family> {
         "memory" => family_memory(),
         "store-explicit" => family_store(false, persistent),
         "store-every-cycle" => family_store(true, persistent),
+        "store-reals" => family_store_reals(false),
+        "store-reals-every-cycle" => family_store_reals(true),
         _ => return None,
     })
 }
 
-const FAMILY_NAMES: [&str; 7] = ["matrix", "bindings", "config-init", "single", "memory", "store-explicit", "store-every-cycle"];
+const FAMILY_NAMES: [&str; 9] = ["matrix", "bindings", "config-init", "single", "memory", "store-explicit", "store-every-cycle", "store-reals", "store-reals-every-cycle"];
 
 // ------------------------------------------------------------------------------------------
 // observation of the real runtime (by NAME / structural path, never by instance id)
@@ -1497,6 +1611,10 @@ fn apply_update(fam: &Family, model: &mut BTreeMap<String, MVal>, i: usize) {
             MVal::I(x) => MVal::I(x + 1),
             o => o,
         },
+        Upd::Neg => match get(model, &v.path) {
+            MVal::R(x) => MVal::R(-x),
+            o => o,
+        },
     };
     model.insert(v.path.clone(), new);
 }
@@ -1621,6 +1739,44 @@ fn run_trace(fam: &Family, events: &[Ev], report_from: usize) -> TraceOut {
                     Err(p) => finds.push(Finding { sig: format!("C09/panic/save/{}", norm_msg(&p)), what: format!("save_retain_store panicked: {p}"), step: i }),
                 }
                 flushes.push(model.clone());
+                snap = snapshot(fam, &h);
+            }
+            Ev::RealWrite(k) => {
+                let val: f64 = match k {
+                    0 => 0.0,
+                    1 => -0.0,
+                    2 => f64::NAN,
+                    _ => 2.5,
+                };
+                for v in fam.vars.iter().filter(|v| matches!(v.ty, Ty::Real | Ty::LReal)) {
+                    let value = if v.ty == Ty::LReal { Value::LReal(val) } else { Value::Real(val as f32) };
+                    let path = v.path.clone();
+                    let access = fam.access.iter().find(|a| a.1 == path).map(|a| a.0.clone());
+                    let written = value.clone();
+                    let r = catch(|| -> Result<(), String> {
+                        let rt = h.runtime_mut();
+                        if let Some(name) = &access {
+                            rt.write_access(name, value).map_err(|e| format!("write_access({name}) fails with {e:?}"))
+                        } else if let Some((prog, var)) = path.split_once('.') {
+                            let id = match rt.storage().get_global(prog) {
+                                Some(Value::Instance(id)) => *id,
+                                _ => return Err(format!("program instance {prog} not found")),
+                            };
+                            if rt.storage_mut().set_instance_var(id, var, value) { Ok(()) } else { Err(format!("instance of {prog} vanished")) }
+                        } else {
+                            let mut updates = indexmap::IndexMap::new();
+                            updates.insert(smol_str::SmolStr::new(&path), value);
+                            rt.apply_mesh_updates(&updates);
+                            Ok(())
+                        }
+                    });
+                    match r {
+                        Ok(Ok(())) => {}
+                        Ok(Err(e)) => anomaly(&mut finds, &mut out.machinery, "C09/binding/access:global-var".into(), format!("{} of {path}: {e}", ev.name())),
+                        Err(p) => finds.push(Finding { sig: format!("C09/panic/real-write/{}", norm_msg(&p)), what: format!("{} of {path} panicked: {p}", ev.name()), step: i }),
+                    }
+                    model.insert(path, to_mval(&written));
+                }
                 snap = snapshot(fam, &h);
             }
             Ev::WriteVia(k) => {
@@ -1898,7 +2054,9 @@ fn run_trace(fam: &Family, events: &[Ev], report_from: usize) -> TraceOut {
                         }
                         let earlier = &flushes[..flushes.len().saturating_sub(1)];
                         let stale = matches!(ev, Ev::Power | Ev::Reboot) && earlier.iter().any(|m| m.get(&v.path) == Some(&real));
+                        let sign_only = allowed.iter().any(|a| differs_by_sign_of_zero(a, &real));
                         let kind = match (ev, class) {
+                            (Ev::Power | Ev::Reboot, _) if stale && sign_only => "stale-snapshot/real:sign-of-zero",
                             (Ev::Power | Ev::Reboot, _) if stale => "stale-snapshot",
                             (Ev::Cold, _) => if real == p { "kept" } else { "wrong-value" },
                             (_, Class::Keep) => if is_init(&real) { "lost" } else { "wrong-value" },
@@ -1940,6 +2098,14 @@ fn run_trace(fam: &Family, events: &[Ev], report_from: usize) -> TraceOut {
             for (j, v) in fam.vars.iter().enumerate() {
                 let m = model.get(&v.path);
                 let r = snap.vars.get(&v.path);
+                if let (Some(mv), Some(rv)) = (m, r) {
+                    if is_nan(mv) && is_nan(rv) && mv != rv {
+                        // which NaN an arithmetic operation on a NaN yields is not the property's business
+                        model.insert(v.path.clone(), rv.clone());
+                        continue;
+                    }
+                }
+                let m = model.get(&v.path);
                 if m != r {
                     let detail = format!("{} ({}) is {}, reference model says {}", v.path, v.feature(), oshow(r), oshow(m));
                     match (&v.bind_kind, last_disruption) {
@@ -1969,7 +2135,7 @@ fn run_trace(fam: &Family, events: &[Ev], report_from: usize) -> TraceOut {
         let clauses: BTreeSet<String> = mism.iter().map(|m| m.0.clone()).collect();
         for c in clauses {
             let failing: BTreeSet<usize> = mism.iter().filter(|m| m.0 == c).map(|m| m.1).collect();
-            if c.ends_with("/stale-snapshot") {
+            if c.contains("/stale-snapshot") {
                 // the cause is the save that did not reach the store, not the kind of variable
                 let detail = mism.iter().find(|m| m.0 == c).map(|m| m.2.clone()).unwrap_or_default();
                 finds.push(Finding { sig: format!("C09/{c}"), what: format!("after [{}]: {detail} ({} variable(s) affected)", hist_str(prefix), failing.len()), step: i });
